@@ -323,6 +323,28 @@ theorem C18_handshake_java (sha1 : Bytes → Bytes) (publicKey : Bytes) (i : Han
   rw [C18_digest sha1 [] secret publicKey hnz] at h3
   exact (Res.ok.inj h3).symm
 
+/-- The hash the CLIENT sends to the session server is the server-side digest of the same three byte strings —
+    for every server id byte string (ASCII or not, valid UTF-8 or not) and every key byte string (canonical
+    encoding or not): both sides apply the same function to the bytes as they travelled. -/
+theorem C18_client_server_agree (sha1 : Bytes → Bytes) (serverID publicKey secret : Bytes) (joinOk keyParses : Bool)
+    (hash : String) (r : Res Unit)
+    (h : clientHandshake sha1 serverID publicKey secret joinOk keyParses = (some hash, r)) :
+    authDigestServer sha1 serverID secret publicKey = .ok hash ∧
+      ((∃ b ∈ sha1 (serverID ++ secret ++ publicKey), b ≠ 0#8) →
+        hash = javaHex (toSigned (sha1 (serverID ++ secret ++ publicKey)))) := by
+  unfold clientHandshake at h
+  cases hd : authDigest sha1 serverID secret publicKey with
+  | err => rw [hd] at h; simp at h
+  | panic => rw [hd] at h; simp at h
+  | ok d =>
+    rw [hd] at h
+    have hh : d = hash := by
+      cases joinOk <;> cases keyParses <;> simp at h <;> exact h.1
+    subst hh
+    refine ⟨by rw [C18_sides_agree]; exact hd, fun hnz => ?_⟩
+    rw [C18_digest sha1 serverID secret publicKey hnz] at hd
+    exact (Res.ok.inj hd).symm
+
 /-! ### non-vacuity (histories, handshake) -/
 
 /-- a history in which a genuine key is verified and the value is then refilled with a forged signature:
